@@ -46,6 +46,12 @@ def check(ctx, report):
     nested_lengths(ctx, report)
     item_windows(ctx, report)
     declared_windows(ctx, report)
+    # SSL 2.0 record: the consumed length is header size + RECORD-LENGTH; the RECORD-LENGTH arithmetic is tabulated over all header
+    # values of both header forms (shared with C06.R4)
+    from .c06 import ssl2_parse_header
+    report.rule('C03.R9', 'SSL 2.0 record: the number of bytes consumed follows the RECORD-LENGTH of the specification for every header value')
+    ssl2_parse_header(ctx, report, ctx.model.cls('SslRecord'), RULE='C03.R9')
+    report.floor('C03.R9', 1000, 'tabulated SSL 2.0 header values')
     entry_points(ctx, report)
     ownership(ctx, report)
     return_lengths(ctx, report)
